@@ -47,3 +47,20 @@ Definition shifted_by (A : mat) (dim i : nat) (B : mat) : Prop :=
 
 Definition all_same_slice (first : option nat) (rest : list (option nat)) : bool :=
   forallb (fun s => onat_eqb s first) rest.
+
+(** all inputs have the shape of the first one and are well formed *)
+Definition uniform (ims : list img) (sh : list nat) : Prop :=
+  forall im, In im ims -> ishape im = sh /\ wf_img im.
+
+(** what the input loop of [NiftiWrapper.from_sequence] tests, input by input:
+    every input is oriented like the first one, and (spatial merge axis only) every consecutive pair of
+    translations is a non-zero step along the merge axis *)
+Definition mergeable (unitv : vec -> vec) (dim : nat) (ims : list img) (d : img) : Prop :=
+  (forall i, i < length ims -> orient_okb unitv dim (iaff (nth 0 ims d)) (iaff (nth i ims d)) = true) /\
+  (dim < 3 -> forall i, S i < length ims ->
+              bad_step unitv dim (iaff (nth i ims d)) (iaff (nth (S i) ims d)) = false).
+
+(** the shape has no trailing singleton dimension beyond the third that a split along [dim] would drop
+    for good (or [dim] is that last axis) *)
+Definition no_trailing_one (sh : list nat) (dim : nat) : Prop :=
+  length sh <= 3 \/ last sh 0 <> 1 \/ dim = length sh - 1.
